@@ -385,7 +385,13 @@ func (w *world) addObject(kind objKind) *wobj {
 		w.secondReceiver(o)
 	}
 	if kind == kMcast {
-		mp, err := multicast.NewUDPPeer(w.ioc, "udp", "127.0.0.1:0")
+		// (a UDPPeer sets SO_REUSEPORT: a port picked by the kernel could be shared with a peer of another test process)
+		claimed, release, err := sysx.ClaimUDPPort()
+		if err != nil {
+			w.rt.Fatalf("INFRA: %v", err)
+		}
+		w.cleanup = append(w.cleanup, release)
+		mp, err := multicast.NewUDPPeer(w.ioc, "udp", fmt.Sprintf("127.0.0.1:%d", claimed))
 		if err != nil {
 			w.rt.Fatalf("INFRA: NewUDPPeer: %v", err)
 		}
